@@ -23,8 +23,11 @@ type C35Case struct {
 	// (atomically with the eviction) while a second client compiles the
 	// workspace Concurrent times on the same executor; each of its results must
 	// be the batch result of one of the file states that existed while it ran.
-	Concurrent int   `json:"concurrent_compiles,omitempty"`
-	Sched      Sched `json:"sched"`
+	Concurrent int `json:"concurrent_compiles,omitempty"`
+	// StallCleanup: the editing client stalls for this many decisions inside
+	// the cleanup (with the exclusive lock held, if the executor holds it there).
+	StallCleanup int   `json:"stall_in_cleanup,omitempty"`
+	Sched        Sched `json:"sched"`
 }
 
 func genC35(t *rapid.T) C35Case {
@@ -38,7 +41,10 @@ func genC35(t *rapid.T) C35Case {
 	}
 	c.Steps = genEditSteps(t, &wl, rapid.IntRange(1, 5).Draw(t, "nsteps"))
 	if rapid.IntRange(0, 3).Draw(t, "concurrent") == 0 {
-		c.Concurrent = rapid.IntRange(1, 3).Draw(t, "nconcurrent")
+		c.Concurrent = rapid.IntRange(1, 4).Draw(t, "nconcurrent")
+		if rapid.IntRange(0, 1).Draw(t, "stall") == 0 {
+			c.StallCleanup = rapid.IntRange(1, 300).Draw(t, "stallFor")
+		}
 	}
 	c.Sched = Sched{Tape: genTape(t, 500), Disabled: genDisabled(t, incrOptional), PCT: genPCT(t, 200), Tail: genTail(t)}
 	return c
@@ -68,6 +74,7 @@ func execC35(t *testing.T, c C35Case) *Verdict {
 	nontrivial := false
 	var long *expEnv
 	stepsDone := 0 // number of edit steps applied to the disk so far
+	inCleanup := false
 	client := sim.Client{Name: "c0", Fn: func() {
 		long = newExpEnv(disk, c.Roots, c.Par)
 		for step := -1; step < len(c.Steps); step++ {
@@ -79,6 +86,12 @@ func execC35(t *testing.T, c C35Case) *Verdict {
 				}
 				if c.Concurrent > 0 {
 					long.evictWith(c.Steps[step].Evict, func() {
+						// A scheduling point inside the cleanup: anything that can run
+						// now runs against the half-way state. (While the exclusive
+						// lock is really held no Run can start: see the guard below.)
+						inCleanup = true
+						sim.Yield("h.cleanup", "")
+						inCleanup = false
 						c.Steps[step].apply(disk)
 						stepsDone++
 					})
@@ -122,6 +135,9 @@ func execC35(t *testing.T, c C35Case) *Verdict {
 					continue
 				}
 				lo := stepsDone
+				if inCleanup {
+					st.Probe("compile-attempted-during-cleanup")
+				}
 				got := long.compile(context.Background())
 				hi := stepsDone
 				st.Probe("concurrent-compile")
@@ -147,10 +163,24 @@ func execC35(t *testing.T, c C35Case) *Verdict {
 		}})
 	}
 	cfg := incrBubbleCfg(&c.Sched, &gworld{}, 100000)
+	if c.StallCleanup > 0 {
+		cfg.Stall = map[string]int{"h.cleanup": c.StallCleanup}
+	}
 	cfg.Guards = map[string]func() bool{
 		// an eviction reaches the executor's exclusive lock only when no Run is in
 		// flight and nothing a Run spawned is still alive (see incrBubbleCfg)
 		"i.evict.lock": func() bool { return long == nil || long.active == 0 && !sim.SpawnedParked() },
+		// A Run reaches the executor's shared lock only while that lock can be
+		// taken (it cannot while an eviction holds the exclusive lock across a
+		// parked cleanup): decided by probing the real lock, not by a model, so
+		// that an eviction that lets go of the lock too early is not covered up.
+		"i.run.rlock": func() bool {
+			if long == nil {
+				return true
+			}
+			_, canRLock := long.exec.VerifDirtyState()
+			return canRLock
+		},
 	}
 	out := sim.RunBubble(t, cfg, clients, nil)
 	stepsJSON, _ := json.Marshal(c.Steps)
